@@ -52,6 +52,15 @@ Proof.
   destruct (negb cl && is_firstflight st); simpl; auto.
 Qed.
 
+Lemma state_srv_init : forall c, c_state (srv_init c) = c_state c.
+Proof. intros c; dconn c; unfold srv_init; simpl. destruct (negb cl && is_firstflight st); reflexivity. Qed.
+
+Lemma events_srv_init : forall c, c_events (srv_init c) = c_events c.
+Proof. intros c; dconn c; unfold srv_init; simpl. destruct (negb cl && is_firstflight st); reflexivity. Qed.
+
+Lemma pending_srv_init : forall c, c_close_pending (srv_init c) = c_close_pending c.
+Proof. intros c; dconn c; unfold srv_init; simpl. destruct (negb cl && is_firstflight st); reflexivity. Qed.
+
 Lemma live_do_close : forall k c, live (do_close k c) <-> live c.
 Proof. intros k c; dconn c; unfold do_close, live; simpl. destruct (is_none ce && negb (is_end st)); simpl; tauto. Qed.
 
@@ -103,7 +112,7 @@ Proof.
     dconn c; unfold srv_init, live in *; simpl in *. destruct (negb cl && is_firstflight st); auto.
   - apply inv_vn_pkt; auto.
   - destruct (c_client c && valid); auto. apply inv_connect_internal; auto. apply inv_live_state; auto.
-  - apply inv_do_close; auto. apply term_kind_consts.
+  - apply inv_do_close; [apply term_kind_consts|apply inv_srv_init; auto].
   - destruct (inv_proc_pkt now nev peer_close err c I L) as [I1 L1].
     destruct (is_end (c_state (proc_pkt now nev peer_close err c)) || c_close_pending (proc_pkt now nev peer_close err c)); auto.
     apply IH.
@@ -270,8 +279,9 @@ Proof.
       * destruct (c_client c && valid); auto; dconn c; reflexivity.
       * left; split; [|constructor]. destruct (c_client c && valid); auto; dconn c; auto.
     + exists []. rewrite app_nil_r. split.
-      * dconn c; unfold do_close; simpl. destruct (is_none ce && negb (is_end st)); auto.
-      * left; split; [|constructor]. rewrite state_do_close; auto.
+      * rewrite <- (events_srv_init c). generalize (srv_init c); intros c0.
+        dconn c0; unfold do_close; simpl. destruct (is_none ce && negb (is_end st)); auto.
+      * left; split; [|constructor]. rewrite state_do_close, state_srv_init; auto.
     + destruct (proc_pkt_events now nev peer_close err c NT) as [NT1 E1].
       destruct (is_end (c_state (proc_pkt now nev peer_close err c)) || c_close_pending (proc_pkt now nev peer_close err c)).
       * exists (repeat EV_OTHER (Z.to_nat nev)). split; auto. left; split; auto. apply forall_repeat0.
@@ -528,7 +538,7 @@ Proof.
     + exfalso. destruct (c_client c && valid).
       * dconn c; unfold connect_internal in CS; simpl in *. destruct CS as [H|H]; rewrite H in E; discriminate.
       * destruct CS as [H|H]; rewrite H in E; discriminate.
-    + exfalso. rewrite state_do_close in CS. destruct CS as [H|H]; rewrite H in E; discriminate.
+    + exfalso. rewrite state_do_close, state_srv_init in CS. destruct CS as [H|H]; rewrite H in E; discriminate.
     + destruct (is_end (c_state (proc_pkt now nev peer_close err c))) eqn:E1; simpl in *.
       * destruct (proc_pkt_end now nev peer_close err c E E1) as (pto3 & P1 & P2 & P3).
         split; auto. exists nev, pto3, err, idle. subst peer_close. auto.
@@ -685,7 +695,8 @@ Proof.
   - unfold vn_pkt. destruct (c_client c && is_firstflight (c_state c) && negb (c_vn_done c)); auto.
     destruct (verdict =? 0); auto. destruct (verdict =? 1); dconn c; simpl in *; auto.
   - destruct (c_client c && valid); auto.
-  - dconn c; unfold do_close; simpl in *. destruct (is_none ce && negb (is_end st)); auto.
+  - rewrite <- pending_srv_init in P. revert P. generalize (srv_init c); intros c0 P.
+    dconn c0; unfold do_close; simpl in *. destruct (is_none ce && negb (is_end st)); auto.
   - rewrite (pending_proc_pkt now nev peer_close err c P). rewrite orb_true_r. apply pending_proc_pkt; auto.
 Qed.
 
